@@ -32,7 +32,9 @@ def gen_sel(rng, fft):
         idx = sorted(rng.sample(range(fft), k))
         if rng.random() < 0.3:
             rng.shuffle(idx)
-        return {"idx": idx}
+        if rng.random() < 0.1:
+            idx = idx + [idx[0]]                 # a repeated carrier
+        return {"idx": idx, "as_list": rng.random() < 0.25}
     start = rng.choice([None, 0, 0, 1, rng.randrange(fft)])
     stop = rng.choice([None, fft, fft, rng.randint(1, fft), fft + 3])
     step = rng.choice([None, 1, 2, 2, 3, 5])
@@ -306,7 +308,7 @@ def execute(plan):
                         pysel = None
                     elif "idx" in sel:
                         selidx = list(sel["idx"])
-                        pysel = np.array(sel["idx"])
+                        pysel = list(sel["idx"]) if sel.get("as_list") else np.array(sel["idx"])
                     else:
                         pysel = slice(*sel["slice"])
                         selidx = list(range(*pysel.indices(fft)))
